@@ -141,6 +141,35 @@ Fixpoint src_history_from (prev : state) (c : nat) (ops : list hist_op) (rnd : N
   end.
 Definition src_history (c hbuf : nat) (ops : list hist_op) (rnd : N) := src_history_from (process_init c hbuf) c ops rnd.
 
+(* the successive contents of the output stream: one snapshot after every machine step that changed it (a crash can only leave
+   what some moment of the run had written; the order of the writes is the program's) *)
+Fixpoint auto_run_snap (prog : program) (n : nat) (fuel : nat) (rnd : N) (cs : cstate) (last : list N) (acc : list (list N))
+  : sres (list (list N)) :=
+  match n with
+  | O => SErr "step bound reached"
+  | S n' =>
+      match enabled_list cs with
+      | [] => if forallb (fun t => match ct_st t with TDone => true | _ => false end) (cs_thr cs) then SOk (rev acc) else SErr "DEADLOCK"
+      | l =>
+          let rnd' := lcg rnd in
+          let k := if N.eqb rnd 0 then O else N.to_nat ((rnd' / 4294967296) mod N.of_nat (List.length l))%N in
+          match cstep prog [] fuel cs (nth k l O) with
+          | Ok (cs1, _) =>
+              let now := out_bytes cs1 in
+              if Nat.eqb (List.length now) (List.length last) && forallb (fun p : N * N => N.eqb (fst p) (snd p)) (combine now last)
+              then auto_run_snap prog n' fuel rnd' cs1 last acc
+              else auto_run_snap prog n' fuel rnd' cs1 now (now :: acc)
+          | UB w => SErr ("UB: " ++ w)
+          | NoFuel => SErr "out of fuel"
+          end
+      end
+  end.
+Definition src_encrypt_snapshots (c hbuf T : nat) (cm hm : N) (plain key seed : list N) (rnd : N) : sres (list (list N)) :=
+  let n := List.length plain in
+  let fuel := nat_of_N_tr (400000 + 40000 * N.of_nat T + 3000 * N.of_nat c + 400 * N.of_nat n)%N in
+  let steps := (2000 + 200 * T + 40 * (n / (16 * c) + 1) * (T + 2))%nat in
+  auto_run_snap whole_prog steps fuel rnd (whole_init WEnc c hbuf T (Z.of_N cm) (Z.of_N hm) plain key seed) [] [].
+
 Definition src_encrypt_file (c hbuf T : nat) (cm hm : N) (plain key seed : list N) (rnd : N) :=
   src_whole WEnc c hbuf T (Z.of_N cm) (Z.of_N hm) plain key seed rnd.
 (* decrypt / verify are constructed with Settings(-1, -1, .) : the modes come from the file *)
